@@ -58,9 +58,8 @@ def _eval_rge(case):
     res = Result()
     amax = ALPHAS_MAX / (4 * math.pi)
     ref = R.Reference(order, running, nf, alphas, alphaem, mu_ref, amax=amax)
-    refs = {}
-    for mu in TARGETS:
-        refs[mu] = ref.at(mp.mpf(mu) ** 2)
+    swept = R.sweep(ref, [mu**2 for mu in TARGETS])
+    refs = {mu: swept[mu**2] for mu in TARGETS}
     where0 = f"order={order} em_running={running} nf={nf} alphas={alphas} alphaem={alphaem} mu_ref={mu_ref}"
     path = "alphaem_running" if running else "fixed_alphaem"
     mx = {"max_rel_dev_exact_as": 0.0, "max_rel_dev_exact_aem": 0.0, "max_ulp_refpoint": 0.0}
@@ -221,7 +220,7 @@ def run(ctx):
         coupled = running and order[1] >= 1
         if thorough and not coupled:
             pts = list(itertools.product([0.08, 0.118, 0.2, 0.35], [2.0, 10.0, 91.2, 200.0]))
-        elif thorough or not coupled:
+        elif thorough:
             pts = list(itertools.product([0.118, 0.35], [2.0, 91.2]))
         else:
             pts = [(0.118, 91.2), (0.35, 2.0)]
@@ -232,16 +231,17 @@ def run(ctx):
         for (a, r), e in itertools.product(pts, aems):
             cases.append({"kind": "rge", "order": order, "running": running, "nf": nf, "alphas": a, "alphaem": e, "mu_ref": r})
     for order, running in itertools.product(ORDERS, [False, True]):
-        for nf in nfs if thorough else [4, 6]:
+        coupled = running and order[1] >= 1
+        for nf in nfs if thorough else ([4] if coupled else [4, 6]):
             for a in [0.2, 0.35] if thorough else [0.35]:
                 for L in [-1.0, 0.5, 3.0] if thorough else [-1.0, 3.0]:
                     cases.append({"kind": "slope", "order": order, "running": running, "nf": nf, "alphas": a, "alphaem": 0.01, "mu_ref": 2.0, "L": L})
     ctx.run_cases(cases, evaluate, chunksize=1)
     ctx.rule = (
         "rge: complete product of 12 orders (QCD 1-4 x QED 0-2) x em_running on/off x nf 3-6 x alpha_s(ref) x mu_ref x "
-        "alpha_em (quick: alpha_s in {0.118,0.35}, mu_ref in {2,91.2}, alpha_em 0.0075; thorough: alpha_s in "
+        "alpha_em (quick: (alpha_s, mu_ref) in {(0.118,91.2),(0.35,2)}, alpha_em 0.0075; thorough: alpha_s in "
         "{0.08,0.118,0.2,0.35}, mu_ref in {2,10,91.2,200}, alpha_em in {0.001,0.0075,0.01}; the coupled-running "
-        "configurations keep the quick alpha_s/mu_ref lattice), each case evaluating exact and expanded method at 10 target "
+        "configurations use alpha_s in {0.118,0.35} x mu_ref in {2,91.2}), each case evaluating exact and expanded method at 10 target "
         "scales (1.5 ... 1000 GeV, incl. mu_ref, m_tau exactly, 1.9 GeV just above it); slope: 12 orders x running x nf x "
         "alpha_s x ln(mu^2/mu_ref^2) in {-1,0.5,3}, 11 scalings lambda=2^-k each. non-trivial = at least 3 perturbative "
         "targets (rge) / two measured exponents (slope)"
